@@ -68,6 +68,10 @@ type violation struct {
 	What   string `json:"what"`
 	Replay string `json:"replay"`
 	Flaky  bool   `json:"flaky,omitempty"`
+	// Provisional marks the first (unshrunk) failing case of a unit: it is
+	// written at once so that a process killed while shrinking still
+	// leaves a violation with a replay file; the shrunk case replaces it.
+	Provisional bool `json:"provisional,omitempty"`
 }
 
 // Finding is one line of known_findings.jsonl.
@@ -391,6 +395,10 @@ type ReplayFile struct {
 
 // Violation writes a replay file for the case and books the violation.
 func (c *Collector) Violation(unit string, cs interface{}, out Outcome, flaky bool) string {
+	return c.violation(unit, cs, out, flaky, false)
+}
+
+func (c *Collector) violation(unit string, cs interface{}, out Outcome, flaky, provisional bool) string {
 	data, _ := json.Marshal(cs)
 	rf := ReplayFile{Property: c.Property, Unit: unit, Sig: out.Sig,
 		What: out.Err, Case: data}
@@ -408,8 +416,22 @@ func (c *Collector) Violation(unit string, cs interface{}, out Outcome, flaky bo
 	if len(what) > 2000 {
 		what = what[:2000] + "…"
 	}
+	if !provisional {
+		// The final (shrunk) case replaces the unit's provisional one.
+		kept := c.violations[:0]
+		for _, v := range c.violations {
+			if v.Provisional && v.Unit == unit {
+				if v.Replay != path {
+					os.Remove(v.Replay)
+				}
+				continue
+			}
+			kept = append(kept, v)
+		}
+		c.violations = kept
+	}
 	c.violations = append(c.violations, violation{Unit: unit, Sig: out.Sig,
-		What: what, Replay: path, Flaky: flaky})
+		What: what, Replay: path, Flaky: flaky, Provisional: provisional})
 	c.mu.Unlock()
 	c.Flush()
 	return path
@@ -502,6 +524,9 @@ func Check[C any](t *testing.T, c *Collector, unit string,
 				lastCase = &cp
 				lastOut = out
 				fails++
+				if fails == 1 {
+					c.violation(unit, cs, out, false, true)
+				}
 				rt.Fatalf("VIOLATION %s: %s", out.Sig, out.Err)
 			}
 		})
